@@ -65,9 +65,9 @@ const (
 	keyRead       = "vfs-read-error"
 	keySQL        = "vfs-sql-mismatch"
 	keyTT         = "vfs-timetravel-availability"
-	// read errors only, every one of them the VFS's "file is gone" answer (Busy after
-	// its not-exist retries), and a file this view built its index from has been
-	// deleted from the replica by retention since
+	// F18: read errors only, every one of them the VFS's "file is gone" answer (Busy
+	// after its not-exist retries), and the history shows the cause: see
+	// cursorSeedingExplains. Any other Busy page is keyRead.
 	keyRetention = "index-file-deleted-by-retention"
 )
 
@@ -76,10 +76,10 @@ func init() {
 		ID:    "C18",
 		Level: "exploration",
 		Rule: "generated primary histories (seeded PRNG) over {insert small/big/multi, update, DDL, delete half/all, incremental_vacuum(n|all), auto_vacuum=FULL shrink at commit, VACUUM, SyncAndWait, Compact(1) with level-0 retention 1ns|1h, Compact(1) whose level-1 file becomes visible to the reader one sync and one poll late, Compact(2), Snapshot, EnforceL0RetentionByTime} x {page size, auto_vacuum, checkpoint thresholds}; " +
-			"VFS steps placed between primary operations: Open, VerifPollOnce, poll under a SHARED lock (pending index) + Unlock, SetTargetTime(T from recorded level-0 header timestamps) / poll during time travel / ResetTime, Close; page cache 1 page | 8 pages | default; " +
+			"VFS steps placed between primary operations: Open, VerifPollOnce, poll under a SHARED lock (pending index) + Unlock, SetTargetTime(T from recorded level-0 header timestamps) between polls or while a poll is in flight (gated level-0 listing) / poll during time travel / ResetTime, Close; page cache 1 page | 8 pages | default; " +
 			"a quarter of the histories also poll a real SQLite (mattn) connection on the registered VFS, idle and inside a read transaction (logical dump + integrity_check vs the reference image, plus the byte comparison on that file). " +
 			"At every step: FileSize and ReadAt of every page (and three random sub-page ranges) vs image_n from the level-0 archive, n = VFSFile.Pos().TXID, mask page1[18:20] and page1[24:28] only; image_n cross-checked against Restore(TXID=n) while restorable; time travel vs Restore(Timestamp=T). " +
-			"Four pinned demonstration histories (F5 a,b,c; d = retention of files the view was reading) precede the generated ones. " +
+			"Six pinned demonstration histories precede the generated ones (a,b,c = F5; d = F18; e = page last written by the last transaction of a level-1 file polled after its level-0 file, then level-0 retention; f = SetTargetTime while a poll that finds new files is in flight, held in its level-0 listing by a gating client). " +
 			"distinct = hash(config, step sequence); non-trivial = >=3 comparisons at >=2 distinct TXIDs, >=1 poll that advanced the position, and >=1 commit decrease in the level-0 chain",
 		Assumptions: []string{
 			"file replica client only (no network); file mtime == LTX header timestamp as written by file.ReplicaClient",
@@ -101,7 +101,7 @@ func cases(run *vf.Run) ([]json.RawMessage, error) {
 	}
 	var out []json.RawMessage
 	demoCfg := hist.Config{PageSize: 4096, AutoVacuum: 2, MinCheckpointPageN: 1000, TruncatePageN: 0, CheckpointInterval: 0, MaxSyncWALFrames: -1, MaxSyncLTXFiles: 0}
-	for _, d := range []string{"a", "b", "c", "d"} {
+	for _, d := range []string{"a", "b", "c", "d", "e", "f"} {
 		out = append(out, vf.Spec(spec{Seed: vf.SubSeed(run.Seed, "C18-demo", d), Cfg: demoCfg, Cache: 1, Demo: d}))
 	}
 	for i := 0; i < n; i++ {
@@ -130,6 +130,7 @@ type facts struct {
 	desc        string
 	files       []fileID // the files the step reads its index entries from
 	allBusy     bool     // (symptom side) every failing read answered Busy
+	busyPages   []int    // the pages that answered Busy
 }
 
 type fileID struct {
@@ -320,6 +321,12 @@ func demoScript(d string) []string {
 	case "c": // poll a level-1 file that ends before the level-0 position already reached
 		return append(grow, "compact1:keep", "open", "x:INSERT INTO t1(v) VALUES(zeroblob(100))", "sync", "compact1:keep",
 			"x:INSERT INTO t1(v) VALUES(zeroblob(200))", "sync", "poll", "x:INSERT INTO t1(v) VALUES(zeroblob(300))", "sync", "poll")
+	case "e": // a page whose last writer is the last transaction of a level-1 file the view polled after the level-0 file; then retention
+		return append(grow, "compact1:keep", "open", "x:INSERT INTO t1(v) VALUES(zeroblob(100))", "sync", "poll", "compact1:keep", "poll",
+			"x:INSERT INTO t2(v) VALUES(zeroblob(100))", "sync", "l0ret", "poll")
+	case "f": // SetTargetTime while a poll that will find new files is in flight
+		return append(grow, "open", "x:INSERT INTO t1(v) VALUES(zeroblob(100))", "sync", "poll",
+			"x:INSERT INTO t1(v) VALUES(zeroblob(3000))", "sync", "x:INSERT INTO t2(v) VALUES(zeroblob(3000))", "sync", "ttrace:pos")
 	case "d": // compaction + level-0 retention of the files the view was reading
 		return append(grow, "open", "x:INSERT INTO t1(v) VALUES(zeroblob(100))", "sync", "compact1:del", "poll")
 	}
@@ -362,6 +369,12 @@ func (h *harness) gen() {
 			h.queue = append(h.queue, "compact1:hide", "w:"+[]string{"update", "ins-small", "ins-multi"}[h.rng.Intn(3)], "sync", "poll", "unhide", "poll")
 			return
 		}
+		if h.rng.Intn(4) == 0 && h.direct != nil {
+			// the view follows through level 0, then level 1, then retention removes the level-0 files
+			h.queue = append(h.queue, "w:"+[]string{"update", "ins-small", "ins-multi"}[h.rng.Intn(3)], "sync", "poll", "compact1:keep", "poll",
+				"w:"+[]string{"update", "ins-small"}[h.rng.Intn(2)], "sync", "l0ret", "poll")
+			return
+		}
 		h.queue = append(h.queue, []string{"compact1:keep", "compact1:del"}[h.rng.Intn(2)])
 	case r < 52:
 		h.queue = append(h.queue, "compact2")
@@ -394,8 +407,10 @@ func (h *harness) gen() {
 			h.queue = append(h.queue, "poll")
 		case q < 70:
 			h.queue = append(h.queue, "lpoll")
-		case q < 85:
+		case q < 78:
 			h.queue = append(h.queue, "tt")
+		case q < 85:
+			h.queue = append(h.queue, "w:"+[]string{"update", "ins-small", "ins-multi"}[h.rng.Intn(3)], "sync", "ttrace")
 		case q < 93:
 			h.queue = append(h.queue, "close")
 		default:
@@ -749,6 +764,75 @@ func (h *harness) deletedFile(v *view) string {
 	return strings.Join(gone, " ")
 }
 
+// cursorSeedingExplains is the history predicate of the known finding F18. It
+// holds when, for every page that answered Busy,
+//   - the view's index was (re)built from a plan without a level-1 file, so its
+//     level-1 cursor was seeded with its position at that time (seed),
+//   - the level-0 file of the page's last writer w (w <= view position) has been
+//     deleted from the replica, i.e. it was compacted into a level-1 file C,
+//   - the view never took C's entries (C is not among the files it polled), and
+//     that is explained by the seeding: C.MinTXID <= seed (C can never be listed,
+//     the listing seeks MinTXID >= seed+1), or another level-1 file U with
+//     U.MinTXID <= seed < U.MaxTXID can never be listed, which makes every later
+//     level-1 file "non-contiguous" for this view.
+//
+// A Busy page whose covering level-1 file the view did poll is not explained.
+func (h *harness) cursorSeedingExplains(v *view, pages []int) string {
+	if !v.noL1Plan || len(pages) == 0 {
+		return ""
+	}
+	pos := int(v.f.Pos().TXID)
+	seed := int(v.seed)
+	var l1 []oracle.FileRef
+	for _, fr := range oracle.ListLevel(h.rep, 1) {
+		if !h.hidden[fileID{1, ltx.TXID(fr.Min), ltx.TXID(fr.Max)}] {
+			l1 = append(l1, fr)
+		}
+	}
+	broken := ""
+	for _, fr := range l1 {
+		if fr.Min <= seed && fr.Max > seed && !v.files[fileID{1, ltx.TXID(fr.Min), ltx.TXID(fr.Max)}] {
+			broken = fr.String()
+		}
+	}
+	var parts []string
+	for _, pg := range pages {
+		w := 0
+		for n := pos; n >= 1 && w == 0; n-- {
+			if lf := h.e.Arch.Files[n]; lf != nil {
+				if _, ok := lf.Pages[uint32(pg)]; ok {
+					w = n
+				}
+			}
+		}
+		if w == 0 {
+			return ""
+		}
+		if _, err := os.Stat(h.client.LTXFilePath(0, ltx.TXID(w), ltx.TXID(w))); !os.IsNotExist(err) {
+			return "" // the last writer's level-0 file is still there: something else is wrong
+		}
+		var c *oracle.FileRef
+		for i := range l1 {
+			if l1[i].Min <= w && w <= l1[i].Max {
+				c = &l1[i]
+			}
+		}
+		switch {
+		case c == nil:
+			return ""
+		case v.files[fileID{1, ltx.TXID(c.Min), ltx.TXID(c.Max)}]:
+			return "" // the view polled the covering file and still reads the deleted one
+		case c.Min <= seed:
+			parts = append(parts, fmt.Sprintf("page %d: last writer %d, covered by %s which starts at or below the seeded cursor", pg, w, c))
+		case broken != "":
+			parts = append(parts, fmt.Sprintf("page %d: last writer %d, covered by %s, not contiguous for this view because %s can never be listed", pg, w, c, broken))
+		default:
+			return ""
+		}
+	}
+	return fmt.Sprintf("index built from a plan without a level-1 file, level-1 cursor seeded with position %d; %s", seed, strings.Join(parts, "; "))
+}
+
 func (v *view) addFiles(ids []fileID) {
 	if v.files == nil {
 		v.files = map[fileID]bool{}
@@ -760,8 +844,8 @@ func (v *view) addFiles(ids []fileID) {
 
 func (h *harness) classify(v *view, fx facts, generic string) (string, string) {
 	if generic == keyRead && fx.allBusy {
-		if gone := h.deletedFile(v); gone != "" {
-			return keyRetention, "files this view took index entries from were deleted by retention: " + gone + "; " + fx.desc
+		if why := h.cursorSeedingExplains(v, fx.busyPages); why != "" {
+			return keyRetention, why + "; files this view took index entries from that retention deleted: " + h.deletedFile(v) + "; " + fx.desc
 		}
 	}
 	switch {
@@ -866,6 +950,7 @@ func (h *harness) compareBytes(v *view, fx facts, ref []byte, what string) bool 
 			nerr++
 			if err == sqlite3vfs.BusyError {
 				nbusy++
+				fx.busyPages = append(fx.busyPages, pg)
 			}
 			if len(rerr) < 4 {
 				rerr = append(rerr, fmt.Sprintf("page %d: n=%d err=%v", pg, n, err))
@@ -921,6 +1006,7 @@ func (h *harness) compareBytes(v *view, fx facts, ref []byte, what string) bool 
 				nerr++
 				if err == sqlite3vfs.BusyError {
 					nbusy++
+					fx.busyPages = append(fx.busyPages, pg)
 				}
 				rerr = append(rerr, fmt.Sprintf("page %d [%d:+%d]: n=%d err=%v", pg, off, ln, n, err))
 				continue
@@ -1168,11 +1254,12 @@ func (h *harness) timeTravel(v *view, race bool, arg string) {
 	want, rerr := h.e.RestoreBytes(opt)
 	kind := "set-target-time"
 	var serr error
+	var pfx facts
 	if !race {
 		serr = v.f.SetTargetTime(h.ctx, T)
 	} else {
 		kind = "set-target-time-during-poll"
-		pfx := h.pollFacts(v, "poll")
+		pfx = h.pollFacts(v, "poll")
 		before := v.f.Pos().TXID
 		v.client.arm()
 		done := make(chan error, 1)
@@ -1213,8 +1300,8 @@ func (h *harness) timeTravel(v *view, race bool, arg string) {
 	case serr != nil && rerr != nil:
 		h.res.Count("timetravel_both_unavailable", 1)
 		if race {
-			fx2 := facts{kind: "poll", desc: "poll that was in flight during a refused SetTargetTime"}
-			h.compare(v, fx2)
+			pfx.desc = "poll that was in flight during a refused SetTargetTime: " + pfx.desc
+			h.compare(v, pfx)
 		}
 		return
 	case serr != nil:
